@@ -23,7 +23,7 @@ func init() {
 		Batches: func(tier string) int { return map[string]int{"quick": 16, "thorough": 48}[tier] },
 		Run:     run,
 		Rule: "cases: pairs (tree, perturbed copy): every single-point perturbation (change scalar, change kind, delete member, add member, nil a member, truncate / extend array) of each generated tree, 2-5 point perturbations, unrelated pairs, identical pairs and numeric-width variants; " +
-			"ignore sets: none, a path at / above / below / beside a difference, wildcard elements, several paths through different indexes of one array; simple and gen pairs; fingerprints for Match: sub-trees of the target, perturbed sub-trees, explicit nils. " +
+			"ignore sets: none, a path at / above / below / beside a difference, wildcard elements, several paths through different indexes of one array, several paths of any kind preceded by decoy paths beside them; simple and gen pairs; fingerprints for Match: sub-trees of the target, perturbed sub-trees, explicit nils. " +
 			"Checked: Diff empty iff the reference diff (minus ignored locations) is empty, every returned path is a genuine difference location (soundness), every differing location is covered by a returned path or an ignore path (completeness), Compare nil iff Diff empty and among Diff's paths, Match equals the reference. " +
 			"non-trivial: the pair differs in at least one location or carries an ignore path; distinct by digest of (a, b, ignores)",
 		Assumptions: []string{
@@ -34,7 +34,7 @@ func init() {
 		Findings: map[string]func(v *mon.Violation) bool{},
 		Floors: func(tier string, cover map[string]int64, evals int64) []string {
 			var out []string
-			for _, k := range []string{"pair:identical", "pair:single-point", "pair:multi-point", "pair:unrelated", "pair:width-variant", "pair:gen", "ignore:none", "ignore:at", "ignore:above", "ignore:below", "ignore:beside", "ignore:wildcard", "ignore:several-indexes", "match:subtree", "match:perturbed", "match:explicit-nil", "soundness-checks", "completeness-checks"} {
+			for _, k := range []string{"pair:identical", "pair:single-point", "pair:multi-point", "pair:unrelated", "pair:width-variant", "pair:gen", "ignore:none", "ignore:at", "ignore:above", "ignore:below", "ignore:beside", "ignore:wildcard", "ignore:several-indexes", "ignore:several-mixed", "match:subtree", "match:perturbed", "match:explicit-nil", "soundness-checks", "completeness-checks"} {
 				if cover[k] == 0 {
 					out = append(out, "coverage class never reached: "+k)
 				}
@@ -644,10 +644,40 @@ func run(c *mon.Ctx) {
 		icls := "none"
 		if len(all) > 0 && r.Intn(3) != 0 {
 			dl := all[r.Intn(len(all))]
-			switch r.Intn(7) {
+			switch r.Intn(9) {
 			case 0:
 				if len(dl) > 0 {
 					ignores = append(ignores, toPath(dl))
+					icls = "at"
+				}
+			case 7, 8:
+				// several ignore paths of any kind, decoys first: a path beside each chosen location
+				// (same parent, other member) precedes the real ones
+				var real []alt.Path
+				for _, l := range all {
+					if len(l) > 0 && len(real) < 4 && r.Intn(2) == 0 {
+						real = append(real, toPath(l))
+					}
+				}
+				if len(real) == 0 && len(dl) > 0 {
+					real = append(real, toPath(dl))
+				}
+				for _, p := range real {
+					if r.Intn(2) == 0 {
+						d := append(alt.Path{}, p...)
+						switch t := d[len(d)-1].(type) {
+						case int:
+							d[len(d)-1] = t + 7
+						case string:
+							d[len(d)-1] = t + "_decoy"
+						}
+						ignores = append(ignores, d)
+					}
+				}
+				ignores = append(ignores, real...)
+				if len(ignores) >= 2 {
+					icls = "several-mixed"
+				} else if len(ignores) == 1 {
 					icls = "at"
 				}
 			case 1:
